@@ -13,8 +13,8 @@ Transcription (of the code as it is now in /repo, after `fix:` 7a20429) of
   (hist_functions.py:105-123), `iter_bins_with_edges` (474-507), `iter_cells` (510-612, index
   `ranges`; `coord_ranges` are outside the model),
 * `hist_to_graph` (hist_functions.py:299-391),
-* `graph.__init__`, `_parse_error_names`, `_get_err_indices`, `__iter__`/`rows`, `scale`
-  (graph.py:15-160,176-271,273-317),
+* `graph.__init__`, `_parse_error_names`, `_get_err_indices`, `__iter__`/`rows`, `scale`, `__add__`
+  (graph.py:15-160,176-271,273-317,373-417),
 * `hist1d_to_csv`, `hist2d_to_csv` (to_csv.py:120-180: the rows, as tuples of numbers — `{:f}`
   formatting is not modelled) and the dispatch of `ToCSV.run` for one value (to_csv.py:224-337),
 * `scale_to` (flow/group_scale.py:8-62) and `ScaleTo.__call__` (structures/elements.py:119-138).
@@ -445,6 +445,43 @@ def graphSetScale (g : Graph) (other : Q) : Except Err Graph :=
         let inds := lastCoordInd :: errIndices g.dim lastCoordName g.parsed 0
         let rescale := other / sc
         .ok { g with coords := rescaleCoords rescale inds g.coords 0, scale := some other }
+
+/-! ## `graph.__add__` -/
+
+/-- `all(len(self.coords[i]) == len(other.coords[i]) for i in range(dim - 1))`; a missing array is an `IndexError` -/
+def sameCoordLengths (a b : List (List Q)) : Nat → Except Err Bool
+  | 0 => .ok true
+  | k + 1 => do
+    let rest ← sameCoordLengths a b k
+    match a[k]?, b[k]? with
+    | some x, some y => pure (rest && x.length == y.length)
+    | _, _ => .error .indexError
+
+/-- the scale of a sum of graphs: the sum of the scales if both are known (graph.py:403-413) -/
+def addScales : Option Q → Option Q → Option Q
+  | some s0, some s1 => some (s0 + s1)
+  | _, _ => none
+
+/-- `self + other` for two graphs (graph.py:373-417): the last coordinates are added point by point, the other
+coordinates are taken from `self`, error fields are not copied — but all field names of `self` are given to the
+new graph, so a `self` with error fields ends in the `LenaValueError` of `graph.__init__`.  The `assert`s
+(equal dimensions, equal lengths of the other coordinates) are `AssertionError`s: outside the model. -/
+def graphAdd (a b : Graph) : Except Err Graph :=
+  if a.dim ≠ b.dim then .error .unmodelled
+  else if a.dim = 0 then .error .unmodelled
+  else do
+    let lastCoordInd := a.dim - 1
+    let allSame ← sameCoordLengths a.coords b.coords lastCoordInd
+    if !allSame then .error .unmodelled
+    else
+      match a.coords[lastCoordInd]?, b.coords[lastCoordInd]? with
+      | some xa, some xb =>
+        if xb.length < xa.length then .error .indexError
+        else
+          let newVals := List.zipWith (· + ·) xa xb
+          let newCoords := a.coords.take lastCoordInd ++ [newVals]
+          mkGraph newCoords (.tuple a.fieldNames) (addScales a.scale b.scale)
+      | _, _ => .error .indexError
 
 /-! ## `hist_to_graph` -/
 
